@@ -1,7 +1,7 @@
 (* Declarative readings of transfer traces (first sends, retransmissions, lock step, what the
    client is sent) and the cooperative client with bounded faults.  Definitions only. *)
 From Coq Require Import List NArith ZArith Bool.
-From VF Require Import Tftp.Codec Tftp.Transfer Tftp.Run Tftp.Monitor.
+From VF Require Import Tftp.Readers Tftp.Codec Tftp.Transfer Tftp.Run Tftp.Monitor.
 Import ListNotations.
 Open Scope Z_scope.
 
@@ -129,3 +129,17 @@ Definition noise_ok (wanted : N) (dl : Z) (nz : noise * Z) : Prop :=
 Definition plan_ok (tm : Z) (rt : nat) (pp : pkt * plan) : Prop :=
   (lost (snd pp) <= rt)%nat /\ 0 <= delta (snd pp) < tm /\
   Forall (noise_ok (want (fst pp)) (delta (snd pp))) (noises (snd pp)).
+
+(* ---------- per case ---------- *)
+Definition run_r (c : tcase) : (outcome + ending) * list tr :=
+  transfer_r (t_cfg c) (n_oack (t_neg c)) (t_blocks c) (t_events c).
+(* how the transfer of the case ended *)
+Definition ending_of (c : tcase) : outcome + ending := fst (run_r c).
+(* what the handler's stream has to deliver: the content, netascii-converted if requested *)
+Definition wire_content (c : tcase) : list N :=
+  if t_netascii c then netascii_spec (t_content c) else t_content c.
+Definition wrap_ok (c : tcase) : Prop :=
+  match t_wrap c with Some w => (w <= 65535)%N | None => True end.
+(* the script of the cooperative client for this case *)
+Definition coop_script (c : tcase) (plans : list plan) : list event :=
+  script_of (tmo (t_cfg c)) 0 (combine (fst (expected c)) plans).
